@@ -1,6 +1,6 @@
 (* Dispatcher of the extracted model binary: one S-expression in, one out. *)
 From Coq Require Import List String.
-From EinxV Require Import Base.Sexp Model.ParseIO.
+From EinxV Require Import Base.Sexp Model.ParseIO Model.LoopIO.
 Import ListNotations.
 Open Scope string_scope.
 
@@ -8,6 +8,7 @@ Definition run (s : sexp) : sexp :=
   match s with
   | L [A cmd; arg] =>
     if String.prefix "parse" cmd then run_parse cmd arg
+    else if String.prefix "plan_" cmd then run_loop cmd arg
     else bad "unknown command"
   | _ => bad "expected (cmd arg)"
   end.
